@@ -15,3 +15,8 @@ mod c14_circ {
 mod c14_recv {
     include!(concat!(env!("IPA_VERIF_DIR"), "/c14_recv.rs"));
 }
+
+#[cfg(not(feature = "shuttle"))]
+mod c14_send {
+    include!(concat!(env!("IPA_VERIF_DIR"), "/c14_send.rs"));
+}
